@@ -140,6 +140,17 @@ CHECKS["C14"] = (
     "DESIGN.md 5.1, 6 (C14)",
 )
 
+CHECKS["C17"] = (
+    "model_checking",
+    "bounded-exhaustive enumeration of structure definitions x all instances over a 3-value alphabet per field x all ordered pairs x all constructor forms, plus exhaustive short histories of hash/assign operations, on the real classes",
+    "Every structure of 0-3 fields over 10 field kinds and 4 fields over 6 kinds (thorough: 4/5), packed and aligned, both readers: all instances "
+    "over {zero, nz1, nz2}^n and all ordered pairs (== iff same class and field-wise equal, equal hashes, bool = any field truthy, never equal to "
+    "another class), every keyword subset and positional prefix equals assignment on a default, defaults are zero values, dumps of every "
+    "instance equals the reference encoding bit for bit (assignment is local), all histories of <=3 (4) operations {hash, assign, assign "
+    "through nested struct} agree with a fresh equal instance, all 24 class-definition orders, field-count sweep n=0..20 (32).",
+    "DESIGN.md 6 (C17)",
+)
+
 NOT_APPLICABLE = {}
 
 
